@@ -51,6 +51,10 @@ func c05Shapes() []linkShape {
 		add("out-sibling-prefix-dir", "{UP}../src-evil")
 		add("via-root-name", "{UP}../src/a.txt")
 		add("via-root-name-dir", "{UP}../src/sub")
+		add("via-root-name-dotted", "./{UP}../src/a.txt")
+		add("via-root-name-embedded-climb", "sub/../{UP}../src/a.txt")
+		add("out-embedded-climb", "sub/../{UP}../outside/file.txt")
+		add("in-tree-embedded-climb", "sub/../{UP}a.txt")
 		add("absolute-in-file", "/w/src/a.txt")
 		add("absolute-in-dir", "/w/src/sub")
 		add("absolute-out-file", "/w/outside/file.txt")
@@ -93,6 +97,9 @@ func c05BuildWorld(c c05Case) error {
 	os.Symlink("../file.txt", "/w/outside/dirlinks/inner-up")
 	os.Symlink("plain", "/w/outside/dirlinks/inner-same")
 	os.Symlink("/w/outside/file.txt", "/w/outside/dirlinks/inner-abs")
+	os.Symlink("/w/outside/dirlinks/plain", "/w/outside/dirlinks/inner-abs-own")
+	mustWrite("/w/outside/dirlinks/deeper/leaf", can(), 0644)
+	os.Symlink("../plain", "/w/outside/dirlinks/deeper/inner-up-own")
 	os.Symlink("../src/a.txt", "/w/outside/back")
 	os.Symlink("file.txt", "/w/outside/chain")
 	mustWrite("/w/src-evil/secret.txt", can(), 0644)
@@ -117,14 +124,14 @@ func c05BuildWorld(c c05Case) error {
 
 // linkFacts describes one link of the source tree independently of go-slug.
 type linkFacts struct {
-	Rel        string
-	Target     string
-	Absolute   bool
-	LexInside  bool // relative, and stays below the archive root when read at its own position
-	LocInside  bool // the place it names (lexically, from its real location) is inside /w/src
-	Allowed    bool
-	FinalKind  string // kind of the physical final target: file | dir | missing | link-loop | other
-	FinalPath  string
+	Rel       string
+	Target    string
+	Absolute  bool
+	LexInside bool // relative, and stays below the archive root when read at its own position
+	LocInside bool // the place it names (lexically, from its real location) is inside /w/src
+	Allowed   bool
+	FinalKind string // kind of the physical final target: file | dir | missing | link-loop | other
+	FinalPath string
 }
 
 func c05Facts(rel, target string, allow []string) linkFacts {
@@ -451,7 +458,7 @@ func init() {
 	fw.Register(&fw.Property{
 		ID:    "C05",
 		Level: "exploration",
-		Rule: "a source tree with a prefix-sharing sibling (src / src-evil) and an outside area full of OUTSIDE-<n> canaries gets 1-6 links of 25 shapes (in-tree: same dir, via root, dir, dot, dangling, dotted; out-of-tree: relative file/dir/dangling, sibling-prefix, via the root's own name, absolute in/out, chains in->out, out->in, out->out, external directory with inner links, parent, root itself) at 3 depths; " +
+		Rule: "a source tree with a prefix-sharing sibling (src / src-evil) and an outside area full of OUTSIDE-<n> canaries gets 1-6 links of 28 shapes (in-tree: same dir, via root, dir, dot, dangling, dotted; out-of-tree: relative file/dir/dangling, sibling-prefix, via the root's own name, absolute in/out, chains in->out, out->in, out->out, external directory with inner links, parent, root itself) at 3 depths; " +
 			"packed with {dereference on/off} x {ignore on/off} x 5 allow-list settings; the slug is decoded independently and every entry is compared with the tree and with the physical target of its link; slugs from all-relative trees are handed to Unpack. Exhaustive over single shapes x option sets, PRNG over combinations. " +
 			"non-trivial = some link leaves the tree or approaches its boundary; distinct = links x options",
 		Assumptions: []string{"a link is out-of-tree when the place its target names, from the link's real location, is outside the source directory (component-wise)", "absolute links that point into the tree may be stored as absolute link entries (pinned by the repository's tests); such trees are exempt from the 'Unpack accepts' clause", "link cycles and links to special files belong to C19"},
@@ -465,10 +472,15 @@ func init() {
 		p2.Run = func(env *fw.Env, idx int) fw.Result { return c20FromC05(env, idx, inner) }
 		c20 = append(c20, &p2)
 	}
+	c20 = append(c20, &fw.Phase{
+		Name: "overlapping-packs-on-one-shared-packer", Chroot: true,
+		N:   fw.Fixed(60, 1500),
+		Run: c20SharedPacker,
+	})
 	fw.Register(&fw.Property{
 		ID:    "C20",
 		Level: "exploration",
-		Rule: "every successful Pack over the C02 trees (all option sets, both privileges) and over the C05 link worlds (dereferenced files and directories, allow-lists, ignored subtrees) is decoded independently with archive/tar; Meta.Files must equal the entry names in order and Meta.Size must equal both the content bytes read back for regular entries and the sum of their header sizes. " +
+		Rule: "every successful Pack over the C02 trees (all option sets, both privileges) and over the C05 link worlds (dereferenced files and directories, allow-lists, ignored subtrees) is decoded independently with archive/tar, and so is every slug of 4-8 overlapping Pack calls made on ONE shared Packer value over different trees; Meta.Files must equal the entry names in order and Meta.Size must equal both the content bytes read back for regular entries and the sum of their header sizes. " +
 			"non-trivial = slug has >=1 regular entry and >=1 entry of another kind; distinct = tree x options",
 		Assumptions: []string{"no claim when Pack returns an error"},
 		Phases:      c20,
@@ -523,3 +535,81 @@ func c20FromC05(env *fw.Env, idx int, _ func(*fw.Env, int) fw.Result) fw.Result 
 }
 
 var _ = gen.TreeSpec{}
+
+// c20SharedPacker: several goroutines call Pack on one shared *Packer over
+// different trees at the same time; each returned Meta must describe the slug
+// that call wrote.
+func c20SharedPacker(env *fw.Env, idx int) fw.Result {
+	r := env.Rand(idx)
+	n := 4 + r.Intn(5)
+	res := fw.Result{Hash: fw.HashString(fmt.Sprint("shared", idx, env.Seed)), NonTrivial: true, Class: "shared-packer"}
+	if err := freshDir("/c20s"); err != nil {
+		return fw.Result{Verdict: fw.Inconclusive, Msg: err.Error()}
+	}
+	opts := allPackOpts[idx%len(allPackOpts)]
+	p, err := slug.NewPacker(opts.options()...)
+	if err != nil {
+		return fw.Result{Verdict: fw.Inconclusive, Msg: err.Error()}
+	}
+	type job struct {
+		dir  string
+		obs  []packObs
+		desc string
+	}
+	jobs := make([]*job, n)
+	var descs []string
+	for i := range jobs {
+		t := gen.RandomTree(r, gen.TreeOpts{MaxNodes: 30, MaxDepth: 4, Links: true, BigFiles: false})
+		j := &job{dir: fmt.Sprintf("/c20s/t%d", i), desc: fmt.Sprintf("t%d: %d nodes", i, len(t.Nodes))}
+		if err := gen.Materialise(j.dir, t); err != nil {
+			j.dir = ""
+		}
+		jobs[i] = j
+		descs = append(descs, j.desc)
+	}
+	res.Case = map[string]interface{}{"goroutines": n, "opts": opts.String(), "trees": descs}
+	start := make(chan struct{})
+	done := make(chan struct{}, n)
+	for _, j := range jobs {
+		j := j
+		go func() {
+			defer func() { done <- struct{}{} }()
+			if j.dir == "" {
+				return
+			}
+			<-start
+			for k := 0; k < 4; k++ {
+				var o packObs
+				var buf bytes.Buffer
+				panicked, pv := fw.Try(func() { o.Meta, o.Err = p.Pack(j.dir, &buf) })
+				if panicked {
+					o.Panic = pv
+				}
+				o.Data = buf.Bytes()
+				if o.Err == nil && o.Panic == "" {
+					o.Entries, o.DecErr = mon.DecodeSlug(o.Data)
+				}
+				j.obs = append(j.obs, o)
+			}
+		}()
+	}
+	close(start)
+	for range jobs {
+		<-done
+	}
+	for i, j := range jobs {
+		for k, o := range j.obs {
+			res.Evals++
+			if o.Panic != "" {
+				res.Verdict, res.Finding, res.Msg = fw.Violated, "concurrent-pack-panic", "Pack panicked while other Pack calls ran on the same Packer: "+o.Panic
+				return res
+			}
+			if msg := metaCheck(o); msg != "" {
+				res.Verdict, res.Finding = fw.Violated, "meta-mismatch-shared-packer"
+				res.Msg = fmt.Sprintf("tree %d, call %d on a Packer shared by %d goroutines: %s", i, k, n, msg)
+				return res
+			}
+		}
+	}
+	return res
+}
